@@ -90,10 +90,17 @@ func (in *Init) regByKey(key expr.Key) uint64 {
 		return in.CSR(uint32(n))
 	}
 	if strings.HasPrefix(s, "x") {
-		n, _ := strconv.Atoi(s[1:])
-		return in.Reg(n)
+		if n, err := strconv.Atoi(s[1:]); err == nil {
+			return in.Reg(n)
+		}
 	}
-	return 0
+	// any other (synthetic) register: one of three nearby aligned addresses, so that
+	// memory accesses through different registers alias or not depending on the seed
+	h := uint64(0)
+	for i := 0; i < len(s); i++ {
+		h = h*131 + uint64(s[i])
+	}
+	return 0x8000 + 8*(mix(h, in.Seed)%3)
 }
 
 func (p *Provider) Memory(key expr.Key, addr model.Addr, w expr.Width) expr.Const {
@@ -603,12 +610,27 @@ func RunBlock(code *deps.Code, segs []prog.Seg, ip, lo, hi uint64, in *Init, hor
 			out.Regs[string(k)] = 0xbadbadbad
 		}
 	}
-	if mem, ok := m.State.Mems[riscv.MemoryKey].(*memory.Overlay); ok {
-		for _, iv := range mem.Overlay().Blocks().Intervals() {
+	var mkeys []string
+	for k := range m.State.Mems {
+		mkeys = append(mkeys, string(k))
+	}
+	sort.Strings(mkeys)
+	for ki, k := range mkeys {
+		mem := m.State.Mems[expr.Key(k)]
+		blocks := mem.Blocks()
+		if ov, ok := mem.(*memory.Overlay); ok {
+			blocks = ov.Overlay().Blocks()
+		}
+		// other memory spaces are kept apart by an offset in the outcome's address key
+		off := uint64(0)
+		if expr.Key(k) != riscv.MemoryKey {
+			off = uint64(ki+1) << 56
+		}
+		for _, iv := range blocks.Intervals() {
 			for a := iv.Begin(); a < iv.End(); a++ {
 				e, _ := mem.Load(a, 1)
 				if v, ok := ir.FoldConst(e); ok {
-					out.Mem[uint64(a)] = byte(v)
+					out.Mem[off+uint64(a)] = byte(v)
 				}
 			}
 		}
@@ -663,7 +685,7 @@ func Differ(a, b *Outcome, in *Init, image map[uint64]byte) string {
 	}
 	sort.Slice(al, func(i, j int) bool { return al[i] < al[j] })
 	for _, x := range al {
-		def := in.MemByte(x)
+		def := in.MemByte(x & (1<<56 - 1))
 		if v, ok := image[x]; ok {
 			def = v
 		}
